@@ -9,7 +9,7 @@ packet, with the specified wire type and repeatability. encode-schema: every pro
 (helpers, hand written put_u8+value, User Properties, Reason String) has an identifier allowed in that
 packet and a field of the specified wire type. id-field: the field an identifier is decoded into is the
 field it is encoded from (decoder's struct literal vs encoder's emission), for every packet type.
-layout-size: the symbolic size/emission equivalence of C09 (every encode writes exactly the fields its
+wire-order: for 18 packet types the longest success path of the encoder and of the decoder are reduced to sequences of wire tokens (u8/u16/u32/str/bin/varint/PROPS/loops) with the struct field at each position, and must be equal (same types in the same order, same field where both sides name one). layout-size: the symbolic size/emission equivalence of C09 (every encode writes exactly the fields its
 size function counts) and frame exhaustion of C02 (decoders accept a frame only when all of its bytes
 were read) are imported. Equality of concrete values after a round trip is not decided."""
 import os, json
@@ -309,12 +309,13 @@ def field_of_term(t):
     out = []
     while isinstance(n, tuple) and n:
         if n[0] == 'field':
-            if not (isinstance(n[1], tuple) and n[1][0] == 'downcast'):
+            if not (isinstance(n[1], tuple) and n[1][0] == 'downcast' and (n[1][2] in ('Some', 'Ok', 'Continue') or str(n[2]).isdigit())):
                 out.append(n[2])
             n = n[1]
         elif n[0] == 'downcast':
             n = n[1]
         elif n[0] == 'item':
+            out.append('item')
             n = n[1]
         elif n[0] == 'call' and n[2]:
             n = n[2][0]
@@ -330,6 +331,10 @@ def struct_field_ty(F, adt_pat, field):
                 if f['name'] == field:
                     return f['ty']
     return None
+
+
+def plain_field(f):
+    return '.'.join(x for x in (f or '').split('.') if x != 'item')
 
 
 def encode_props(F, sf, fn):
@@ -351,23 +356,23 @@ def encode_props(F, sf, fn):
                 continue
             if ev[0] == 'prop':
                 pid = ev[4][1] if ev[4][0] == 'const' else None
-                out.setdefault(pid, set()).add(field_of_term(ev[3]))
+                out.setdefault(pid, set()).add(plain_field(field_of_term(ev[3])))
             elif ev[0] in ('optprops', 'ackprops'):
                 a = ev[5]
-                out.setdefault(0x26, set()).add(field_of_term(a[1]))
-                out.setdefault(0x1F, set()).add(field_of_term(a[2]))
+                out.setdefault(0x26, set()).add(plain_field(field_of_term(a[1])))
+                out.setdefault(0x1F, set()).add(plain_field(field_of_term(a[2])))
             elif ev[0] == 'encode' and 'Vec' in str(ev[2]) + type_hint(ev):
                 pass
             elif ev[0] == 'put' and ev[2] == 'put_u8' and ev[3] and ev[3][0] == 'const' and k + 1 < len(evl) and k > 0:
                 nxt = evl[k + 1]
                 if nxt[0] in ('encode', 'varint') and nxt[3] is not None:
-                    out.setdefault(ev[3][1], set()).add(field_of_term(nxt[3]))
+                    out.setdefault(ev[3][1], set()).add(plain_field(field_of_term(nxt[3])))
             elif ev[0] == 'slice' and k > 0:
                 arr = ev[3]
                 while arr[0] in ('ref', 'deref', 'cast'):
                     arr = arr[1]
                 if arr[0] == 'array' and len(arr[1]) == 2 and arr[1][0][0] == 'const':
-                    out.setdefault(arr[1][0][1], set()).add(field_of_term(arr[1][1]))
+                    out.setdefault(arr[1][0][1], set()).add(plain_field(field_of_term(arr[1][1])))
     return out, E
 
 
@@ -628,5 +633,340 @@ def run(F, R):
     tables = decode_schema(F, R)
     opt_props_ids(F, R)
     encode_schema(F, R, sf, tables)
+    wire_order(F, R, sf)
     imported(F, R)
     R.assume('spec/*.json are faithful transcriptions of the OASIS tables (hand-checked twice; the only library value outside the per-packet tables is DISCONNECT 0x8C, listed in Table 2-6)')
+
+
+# ----------------------------------------------------------------------------- wire order (encoder vs decoder)
+
+TOK_OF_TY = [
+    (r'^bool$|^u8$|SubscriptionOptions$|QoS$', ['u8']), (r'^u16$|^std::num::NonZero<u16>$', ['u16']), (r'^u32$|^std::num::NonZero<u32>$', ['u32']),
+    (r'^ntex_bytes::ByteString$', ['str']), (r'^ntex_bytes::Bytes$', ['bin']), (r'^&\[u8\]$|^&\'?\w* ?\[u8\]$', ['str']),
+    (r'^\(ntex_bytes::ByteString, ntex_bytes::ByteString\)$', ['str', 'str']),
+]
+PROP_IDS = None
+
+
+def toks_of_ty(ty):
+    ty = re.sub(r'^std::option::Option<(.*)>$', r'\1', ty or '')
+    for pat, tk in TOK_OF_TY:
+        if re.search(pat, ty):
+            return list(tk)
+    return None
+
+
+def encode_tokens(F, sf, fn, variant=None):
+    """Longest success path of an emitter as [(token, field)], properties collapsed to 'PROPS'.
+    variant = discriminant of the first argument to restrict to one arm of a packet enum."""
+    global PROP_IDS
+    if PROP_IDS is None:
+        PROP_IDS = {int(k) for k in load('mqtt5_tables.json')['properties']}
+    eb = F.bodies[fn]
+    args = [('arg', i + 1) for i in range(eb.argc)]
+    for i in range(1, eb.argc + 1):
+        if eb.local_ty(i) == 'u32':
+            args[i - 1] = ('ARGSIZE',)
+    best = None
+    for c, l, evs in sf.emit_of_call(fn, args):
+        if variant is not None and c.get(('discr', ('arg', 1))) != ('eq', variant):
+            continue
+        seq = events_to_tokens(F, sf, [e for e in evs if e[0] not in ('sub', 'vilinv-arg')])
+        if best is None or len(seq) > len(best):
+            best = seq
+    return best or []
+
+
+def events_to_tokens(F, sf, evl):
+    out = []
+    in_props = False
+    k = 0
+    while k < len(evl):
+        ev = evl[k]
+        kind = ev[0]
+        if kind == 'loop':
+            inner = events_to_tokens(F, sf, [e for e in ev[4] if e[0] not in ('sub', 'vilinv-arg')])
+            # the one-iteration path contains the events before and after the loop as well: keep the ones about the item
+            item = [t for t in inner if t[1] and 'item' in t[1].split('.')]
+            if in_props and all(t[0] in ('u8', 'varint', 'str') for t in item) and item and item[0][0] == 'u8' and False:
+                pass
+            out.append(('(', None))
+            out.extend(item if item else [])
+            out.append(')*', ) if False else out.append((')*', None))
+            k += 1
+            continue
+        if kind == 'varint':
+            if ev[3] == ('ARGSIZE',):
+                out.append(('remaining-length', None))
+            else:
+                f = field_of_term(ev[3]) if isinstance(ev[3], tuple) else ''
+                if in_props and out and out[-1][0] == 'PROPS':
+                    pass  # value of a hand-written varint property
+                elif f:
+                    out.append(('varint', f))
+                else:
+                    out.append(('PROPS', None))
+                    in_props = True
+            k += 1
+            continue
+        if kind in ('prop', 'optprops', 'ackprops'):
+            if not (out and out[-1][0] == 'PROPS'):
+                out.append(('PROPS', None))
+            in_props = True
+            k += 1
+            continue
+        if kind == 'put':
+            v = ev[3]
+            if in_props and v and v[0] == 'const' and v[1] in PROP_IDS and k + 1 < len(evl) and evl[k + 1][0] in ('encode', 'varint'):
+                k += 2  # identifier + value of a hand-written property
+                continue
+            out.append(({'put_u8': 'u8', 'put_u16': 'u16', 'put_u32': 'u32'}.get(ev[2], 'u8'), field_of_term(v) if isinstance(v, tuple) else None))
+            in_props = False
+            k += 1
+            continue
+        if kind == 'slice':
+            arr = ev[3]
+            while isinstance(arr, tuple) and arr and arr[0] in ('ref', 'deref', 'cast'):
+                arr = arr[1]
+            if isinstance(arr, tuple) and arr and arr[0] == 'array':
+                if in_props and len(arr[1]) == 2 and arr[1][0][0] == 'const' and arr[1][0][1] in PROP_IDS:
+                    k += 1
+                    continue
+                for x in arr[1]:
+                    out.append(('u8', field_of_term(x) if isinstance(x, tuple) else None))
+            else:
+                out.append(('bytes', field_of_term(ev[3])))
+            in_props = False
+            k += 1
+            continue
+        if kind == 'encode':
+            ty = ev[4] if len(ev) > 4 else None
+            if ty and 'Vec<(ntex_bytes::ByteString, ntex_bytes::ByteString)>' in ty:
+                if not (out and out[-1][0] == 'PROPS'):
+                    out.append(('PROPS', None))
+                in_props = True
+                k += 1
+                continue
+            tk = toks_of_ty(ty) or ['?%s' % ty]
+            f = field_of_term(ev[3])
+            for x in tk:
+                out.append((x, f))
+            in_props = False
+            k += 1
+            continue
+        if kind == 'nested':
+            out.append(('nested', field_of_term(ev[3])))
+            in_props = False
+            k += 1
+            continue
+        if kind == 'inline':
+            out.append(('inline', None))
+            k += 1
+            continue
+        if kind == 'append':
+            out.append(('bytes', field_of_term(ev[3])))
+            k += 1
+            continue
+        k += 1
+    return out
+
+
+DEC_TOK = [
+    (r'::get_u8$', ['u8']), (r'::get_u16$', ['u16']), (r'::get_u32$', ['u32']),
+    (r'^<u16 as utils::Decode>::decode$|^<std::num::NonZero<u16> as utils::Decode>::decode$', ['u16']),
+    (r'^<u32 as utils::Decode>::decode$|^<std::num::NonZero<u32> as utils::Decode>::decode$', ['u32']),
+    (r'^<bool as utils::Decode>::decode$|^<u8 as utils::Decode>::decode$|SubscriptionOptions as utils::Decode>::decode$', ['u8']),
+    (r'^<ntex_bytes::ByteString as utils::Decode>::decode$', ['str']), (r'^<ntex_bytes::Bytes as utils::Decode>::decode$', ['bin']),
+    (r'utils::take_properties$|ack_props::decode$', ['PROPS']), (r'decode_variable_length_cursor$', ['varint']),
+    (r'UserProperty as utils::Decode>::decode$|\(ntex_bytes::ByteString, ntex_bytes::ByteString\) as utils::Decode>::decode$', ['str', 'str']),
+]
+
+
+def decode_tokens(F, fn, adt_pat, depth=0):
+    """Longest Ok path of a packet decoder as [(token, field)]; only reads on the frame buffer parameter count."""
+    b = F.bodies.get(fn)
+    if b is None:
+        raise AnchorLost(fn)
+    bufs = [i for i in range(1, b.argc + 1) if re.match(r'^(&mut )?ntex_bytes::Bytes$', b.local_ty(i) or '')]
+    if not bufs:
+        return []
+    buf = bufs[0]
+    # struct fields <- decode call blocks
+    tr = re.compile(TRANSPARENT_CALLS.pattern[:-2] + r'|branch|try_into|try_from|ok_or|map|from_bits|contains|bits|is_some|new|then|then_some|unwrap_or_else)$')
+    field_of_block = {}
+    for bi, j, s in agg_sites(b, adt_pat, None):
+        for name, op in zip(s['rv'].get('names') or [], s['rv']['fields']):
+            for l in Origin(b, transparent=tr).of_operand(op):
+                if l[0] == 'call':
+                    field_of_block.setdefault(l[2], set()).add(name)
+    se = SymEx(b, F, max_paths=30000, loop_visits=1)
+    best = None
+    for p in se.run():
+        if p.end[0] != 'return' or not (p.ret and p.ret[0] == 'agg' and p.ret[2] == 'Ok') and not (p.ret and p.ret[0] == 'call'):
+            continue
+        seq = []
+        seen_blocks = set()
+        loop_open = False
+        for nm, a, bi in p.calls:
+            base_bi = bi[0] if isinstance(bi, tuple) else bi
+            if not a:
+                continue
+            first = a[0]
+            while isinstance(first, tuple) and first and first[0] in ('ref', 'deref'):
+                first = first[1]
+            if nm.endswith('::next') and base_bi not in seen_blocks:
+                # `for x in src.as_ref()`: one byte per item
+                it = first
+                hops = 0
+                while isinstance(it, tuple) and it and hops < 12:
+                    hops += 1
+                    if it[0] in ('ref', 'deref'):
+                        it = it[1]
+                    elif it[0] == 'call' and re.search(r'(^|::)(as_ref|deref|iter|into_iter|copied|cloned|borrow|as_slice)$', it[1]) and it[2]:
+                        it = it[2][0]
+                    else:
+                        break
+                if it == ('arg', buf):
+                    seen_blocks.add(base_bi)
+                    seq.append(('u8', None, True))
+                continue
+            if first != ('arg', buf):
+                continue
+            if base_bi in seen_blocks:
+                continue  # second iteration of a loop
+            toks = None
+            for pat, tk in DEC_TOK:
+                if re.search(pat, nm):
+                    toks = tk
+            if toks is None and nm in F.bodies and depth < 3 and F.bodies[nm].file.startswith('src/') and '/codec/' in F.bodies[nm].file:
+                sub = decode_tokens(F, nm, r'.', depth + 1)
+                toks = None
+                for t_, f_ in sub:
+                    seq.append((t_, f_))
+                seen_blocks.add(base_bi)
+                continue
+            if toks is None:
+                if re.search(r'::(advance|split_to)$', nm):
+                    toks = ['skip']
+                else:
+                    continue
+            seen_blocks.add(base_bi)
+            fs = field_of_block.get(base_bi, set())
+            in_loop = base_bi in b.reachable_after(base_bi)
+            for t_ in toks:
+                seq.append((('%s' % t_), (sorted(fs)[0] if len(fs) == 1 else None), in_loop))
+        norm_seq = []
+        for x in seq:
+            if len(x) == 3:
+                t_, f_, lp = x
+            else:
+                t_, f_ = x
+                lp = False
+            norm_seq.append((t_, f_, lp))
+        if best is None or len(norm_seq) > len(best):
+            best = norm_seq
+    if se.truncated and best is None:
+        raise AnchorLost('%s: path enumeration truncated' % fn)
+    # collapse loops into ( .. )*
+    out = []
+    for t_, f_, lp in best or []:
+        if lp and not (out and out[-1][0] == ')*' ):
+            if not any(x[0] == '(' and x[2] for x in out[-1:]):
+                pass
+        out.append((t_, f_, lp))
+    res = []
+    k = 0
+    while k < len(out):
+        t_, f_, lp = out[k]
+        if lp:
+            res.append(('(', None))
+            while k < len(out) and out[k][2]:
+                res.append((out[k][0], out[k][1]))
+                k += 1
+            res.append((')*', None))
+            continue
+        res.append((t_, f_))
+        k += 1
+    # protocol name: u16 + skip(4) == str
+    res2 = []
+    for x in res:
+        if x[0] == 'skip' and res2 and res2[-1][0] == 'u16':
+            res2[-1] = ('str', None)
+        elif x[0] == 'skip':
+            continue
+        else:
+            res2.append(x)
+    return res2
+
+
+WIRE_PAIRS = [
+    ('v5 CONNECT', '<v5::codec::packet::connect::Connect as v5::codec::encode::EncodeLtd>::encode', 'v5::codec::packet::connect::Connect::decode', r'connect::Connect$|connect::LastWill$'),
+    ('v5 CONNACK', '<v5::codec::packet::connack::ConnectAck as v5::codec::encode::EncodeLtd>::encode', 'v5::codec::packet::connack::ConnectAck::decode', r'connack::ConnectAck$'),
+    ('v5 PUBACK', '<v5::codec::packet::pubacks::PublishAck as v5::codec::encode::EncodeLtd>::encode', 'v5::codec::packet::pubacks::PublishAck::decode', r'pubacks::PublishAck$'),
+    ('v5 PUBREL', '<v5::codec::packet::pubacks::PublishAck2 as v5::codec::encode::EncodeLtd>::encode', 'v5::codec::packet::pubacks::PublishAck2::decode', r'pubacks::PublishAck2$'),
+    ('v5 SUBSCRIBE', '<v5::codec::packet::subscribe::Subscribe as v5::codec::encode::EncodeLtd>::encode', 'v5::codec::packet::subscribe::Subscribe::decode', r'subscribe::Subscribe$'),
+    ('v5 SUBACK', '<v5::codec::packet::subscribe::SubscribeAck as v5::codec::encode::EncodeLtd>::encode', 'v5::codec::packet::subscribe::SubscribeAck::decode', r'subscribe::SubscribeAck$'),
+    ('v5 UNSUBSCRIBE', '<v5::codec::packet::subscribe::Unsubscribe as v5::codec::encode::EncodeLtd>::encode', 'v5::codec::packet::subscribe::Unsubscribe::decode', r'subscribe::Unsubscribe$'),
+    ('v5 UNSUBACK', '<v5::codec::packet::subscribe::UnsubscribeAck as v5::codec::encode::EncodeLtd>::encode', 'v5::codec::packet::subscribe::UnsubscribeAck::decode', r'subscribe::UnsubscribeAck$'),
+    ('v5 DISCONNECT', '<v5::codec::packet::disconnect::Disconnect as v5::codec::encode::EncodeLtd>::encode', 'v5::codec::packet::disconnect::Disconnect::decode', r'disconnect::Disconnect$'),
+    ('v5 AUTH', '<v5::codec::packet::auth::Auth as v5::codec::encode::EncodeLtd>::encode', 'v5::codec::packet::auth::Auth::decode', r'auth::Auth$'),
+]
+
+
+V3_PAIRS = [
+    ('v3 CONNECT', 'Connect', 'v3::codec::decode::decode_connect_packet', r'packet::Connect$|packet::LastWill$'),
+    ('v3 CONNACK', 'ConnectAck', 'v3::codec::decode::decode_connect_ack_packet', r'packet::ConnectAck$'),
+    ('v3 PUBACK', 'PublishAck', 'v3::codec::decode::decode_ack', r'packet::Packet$'),
+    ('v3 SUBSCRIBE', 'Subscribe', 'v3::codec::decode::decode_subscribe_packet', r'packet::Packet$'),
+    ('v3 SUBACK', 'SubscribeAck', 'v3::codec::decode::decode_subscribe_ack_packet', r'packet::Packet$'),
+    ('v3 UNSUBSCRIBE', 'Unsubscribe', 'v3::codec::decode::decode_unsubscribe_packet', r'packet::Packet$'),
+]
+
+
+def wire_order(F, R, sf):
+    n = 0
+    table = {}
+    pairs = [(nm, efn, None, dfn, adt) for nm, efn, dfn, adt in WIRE_PAIRS]
+    v3adt = F.adts['v3::codec::packet::Packet']
+    v3idx = {v['name']: v.get('discr', i) for i, v in enumerate(v3adt['variants'])}
+    for nm, var, dfn, adt in V3_PAIRS:
+        if var == 'Connect':
+            pairs.append((nm, 'v3::codec::encode::encode_connect', None, dfn, adt))
+        else:
+            pairs.append((nm, 'v3::codec::encode::encode', v3idx[var], dfn, adt))
+    pairs.append(('v5 PUBLISH', '<v5::codec::packet::publish::Publish as v5::codec::encode::EncodeLtd>::encode', None, 'v5::codec::packet::publish::Publish::decode', r'publish::Publish$'))
+    pairs.append(('v3 PUBLISH', 'v3::codec::encode::encode_publish', None, 'v3::codec::decode::decode_publish_packet', r'packet::Publish$'))
+    for name, efn, variant, dfn, adt in pairs:
+        if efn not in F.bodies or dfn not in F.bodies:
+            raise AnchorLost('%s / %s' % (efn, dfn))
+        try:
+            enc = encode_tokens(F, sf, efn, variant)
+            if enc[:2] and [t for t, f in enc[:2]] == ['u8', 'remaining-length']:
+                enc = enc[2:]   # fixed header is written by frame-level emitters and read by Codec::decode
+        except Unsupported as ex:
+            R.ob('C01.wire-order', '%s|evaluable' % name, False, str(ex)[:200])
+            continue
+        dec = decode_tokens(F, dfn, adt)
+        n += 1
+        # equivalent spellings: a slice of collected bytes == a loop of single bytes; the nested property block == PROPS
+        enc2 = []
+        for t, f in enc:
+            if t == 'bytes':
+                enc2 += [('(', None), ('u8', (f + '.item') if f else None), (')*', None)]
+            elif t == 'nested':
+                enc2.append(('PROPS', None))
+            else:
+                enc2.append((t, f))
+        enc = enc2
+        et = [t for t, f in enc]
+        dt = [t for t, f in dec]
+        table[name] = dict(encoder=['%s%s' % (t, (':' + f) if f else '') for t, f in enc], decoder=['%s%s' % (t, (':' + f) if f else '') for t, f in dec])
+        R.ob('C01.wire-order', '%s|same-sequence-of-wire-types' % name, et == dt, 'encoder writes %s, decoder reads %s' % (' '.join(et), ' '.join(dt)), F.bodies[efn].loc(0))
+        if et == dt:
+            bad = []
+            for (t1, f1), (t2, f2) in zip(enc, dec):
+                if f1 and f2 and 'item' not in f1.split('.') and f1.split('.')[-1] != f2:
+                    bad.append('%s written from %s but read into %s' % (t1, f1, f2))
+            R.ob('C01.wire-order', '%s|same-field-at-every-position' % name, not bad, '; '.join(bad[:3]), F.bodies[efn].loc(0))
+    R.floor('C01.wire-order', 'packet types compared', n, 18)
+    R.table('wire_order', table)
